@@ -285,7 +285,7 @@ def build_jobs(prop, tier):
     """the jobs of one property"""
     J = []
     if prop == "C01":
-        J.append(ReaderJob("c01", plain_suites("fasta", tier) + eof_suites("fasta", tier)))
+        J.append(ReaderJob("c01", plain_suites("fasta", tier) + eof_suites("fasta", tier) + view_suites("fasta", tier)[1:2]))
     elif prop == "C02":
         J.append(ReaderJob("c02", plain_suites("fastq", tier) + eof_suites("fastq", tier)))
     elif prop == "C03":
